@@ -67,6 +67,11 @@ def src(v):
         return f"Decimal({str(v)!r})"
     if t is fractions.Fraction:
         return f"Fraction({v.numerator}, {v.denominator})"
+    if t is collections.defaultdict and v.default_factory in (int, list, str, dict, None):
+        f = "None" if v.default_factory is None else v.default_factory.__name__
+        return f"defaultdict({f}, " + src(dict(v)) + ")"
+    if t is collections.Counter:
+        return "Counter(" + src(dict(v)) + ")"
     if t is collections.OrderedDict:
         return "OrderedDict(" + src(dict(v)) + ")"
     return f"UNREPR({type(v).__name__!r}, {repr(v)[:80]!r})"
@@ -83,9 +88,9 @@ class _Unrepr:
 def namespace():
     return {
         "Z": NAMED, "Nil": Nil, "UUID": uuid.UUID, "datetime": _dt, "Decimal": decimal.Decimal, "Fraction": fractions.Fraction,
-        "OrderedDict": collections.OrderedDict, "UNREPR": _Unrepr, "__builtins__": {
+        "OrderedDict": collections.OrderedDict, "defaultdict": collections.defaultdict, "Counter": collections.Counter, "UNREPR": _Unrepr, "__builtins__": {
             "float": float, "complex": complex, "set": set, "frozenset": frozenset,
-            "bytearray": bytearray, "range": range, "True": True, "False": False, "None": None},
+            "bytearray": bytearray, "range": range, "int": int, "list": list, "str": str, "dict": dict, "True": True, "False": False, "None": None},
     }
 
 
